@@ -57,7 +57,7 @@ class CG:
         args = []
         for ai, (pn, pt) in enumerate(f.params):
             if getattr(f, 'recursive', False) and ai == 0:
-                args.append(Lit(self.rng.randrange(0, 4), INT)); continue
+                args.append(Lit(self.rng.randrange(0, 7), INT)); continue
             if isinstance(pt, Sc):
                 # the static argument type equals the parameter type, so exactly this overload is selected
                 args.append(self.expr(pt, vars_, depth, [g for g in funcs if g is not f and not getattr(g, 'recursive', False)] if depth > 0 else []))
@@ -80,9 +80,15 @@ class CG:
             base = Return(self.expr(ret, scal[1:] or [], 1, []) if len(scal) > 1 else _lit(r, ret))
             ss.append(If(Bin('<=', a0, Lit(0, INT)), base))
             ss.append(Decl(loc.name, ret, self.expr(ret, scal, 1, [])))
-            rec = Call(f, [Bin('-', a0, Lit(1, INT))] + [self.expr(t, scal, 1, []) if isinstance(t, Sc) else self.vexpr(t, vars_) for _, t in params[1:]])
+            def reccall(k):
+                return Call(f, [Bin('-', a0, Lit(k, INT))] + [self.expr(t, scal, 1, []) if isinstance(t, Sc) else self.vexpr(t, vars_) for _, t in params[1:]])
+            rec = reccall(1)
             # the caller's own parameter and local are read AFTER the recursive call
-            tail = Bin('+', rec, loc) if ret == INT else Bin('+', rec, loc)
+            tail = Bin('+', rec, loc)
+            if r.random() < .5:
+                # tree recursion: the activation re-enters the function after an inner activation has returned
+                tail = Bin('+', tail, reccall(2)); self.hit('tree-recursion')
+                tail = Bin('+', tail, loc)
             if a0.ty == ret: tail = Bin('+', tail, a0)
             ss.append(Return(tail))
             self.hit('recursion')
